@@ -762,6 +762,7 @@ where
                         substream=%id,
                         "Ignoring reset for mutually closed substream"
                     );
+                    self.substreams.insert(id, state);
                 }
                 SubstreamState::Reset { .. } => {
                     tracing::trace!(
@@ -769,6 +770,7 @@ where
                         substream=%id,
                         "Ignoring redundant reset for already reset substream"
                     );
+                    self.substreams.insert(id, state);
                 }
                 SubstreamState::RecvClosed { buf }
                 | SubstreamState::SendClosed { buf }
